@@ -52,6 +52,7 @@ type Ctx struct {
 	CallSites   int
 	Floors      map[string][2]int // rule -> {found, floor}
 	fatal       []string
+	importing   []string // properties whose rule sets are being evaluated as premises (outermost first)
 }
 
 func newCtx(property, tier, repo, verif string) *Ctx {
